@@ -53,7 +53,8 @@ class MarkovChain(ABC):
         :param int hours: number of hours for which to run the chain.
         :param int days: number of days for which to run the chain.
         """
-        update_interval = 20  # small initial guess for the update interval
+        # the cost of a step is not known yet: look at the clock after the first one
+        update_interval = 1
         start_length = copy(self.chain_length)
         steps_taken = 0  # stays zero if the time budget is zero
 
